@@ -137,10 +137,89 @@ def laneRoute : List String → String
     | _ => "bad-op"
   | _ => "bad-op"
 
+open Req.Client.Dump in
+/-- `c13dumpers <client opts|-> <request opts|-> <part 0..3|all>` → which dumpers (`c`, `r`)
+`GetDumpers` returns, filtered by the part when one is given. -/
+def laneDumpers : List String → String
+  | [c, r, part] =>
+    match parseOpts c, parseOpts r with
+    | some co, some ro =>
+      let tagged : List (String × Opts) :=
+        (match co with | some o => [("c", o)] | none => []) ++ (match ro with | some o => [("r", o)] | none => [])
+      let sel : Option (List (String × Opts)) :=
+        if part == "all" then some tagged else
+        match part.toNat? with
+        | some 0 => some (tagged.filter (·.2.enabled .reqHeader))
+        | some 1 => some (tagged.filter (·.2.enabled .reqBody))
+        | some 2 => some (tagged.filter (·.2.enabled .respHeader))
+        | some 3 => some (tagged.filter (·.2.enabled .respBody))
+        | _ => none
+      match sel with
+      | some l => if l.isEmpty then "-" else ",".intercalate (l.map (·.1))
+      | none => "bad-op"
+    | _, _ => "bad-op"
+  | _ => "bad-op"
+
+def renderIO (rs : List Req.Client.Dump.IORes) : String :=
+  if rs.isEmpty then "-" else ",".intercalate (rs.map fun r => toString r.n ++ ":" ++ toString r.err)
+
+open Req.Client.Dump in
+/-- `c13wrapw <limit> <writes> <depth>` → results, what the inner writer got, what each of the
+`depth` nested wrappers dumped. -/
+def laneWrapW : List String → String
+  | [limit, writes, depth] =>
+    match limit.toNat?, decodeList writes, depth.toNat? with
+    | some l, some ps, some 1 =>
+      let (rs, ((_, got), d)) := (wrapWriter limitedWriter).runAll ((l, []), []) ps
+      renderIO rs ++ " got=" ++ encodeHex got ++ " d=" ++ encodeHex d
+    | some l, some ps, some 2 =>
+      let (rs, (((_, got), d1), d2)) := (wrapWriter (wrapWriter limitedWriter)).runAll (((l, []), []), []) ps
+      renderIO rs ++ " got=" ++ encodeHex got ++ " d=" ++ encodeHex d1 ++ " d=" ++ encodeHex d2
+    | _, _, _ => "bad-op"
+  | _ => "bad-op"
+
+open Req.Client.Dump in
+/-- `c13wrapr <data> <eofWithData 0|1> <read sizes>` → per read `data:err`, the dumped body, the
+number of separators. -/
+def laneWrapR : List String → String
+  | [data, ewd, caps] =>
+    match decodeHex data, ewd.toNat?, decodeNatList caps with
+    | some bs, some e, some cs =>
+      let (xs, (_, d, seps)) := (wrapReader (bytesReader (e != 0))).runAll (bs, [], 0) cs
+      (if xs.isEmpty then "-" else ",".intercalate (xs.map fun x => encodeHex x.1 ++ ":" ++ toString x.2))
+        ++ " d=" ++ encodeHex d ++ " seps=" ++ toString seps
+    | _, _, _ => "bad-op"
+  | _ => "bad-op"
+
+open Req.Client.Dump in
+/-- `c13chan <cap> <writer ids> <datas> <schedule: s/r string>` → the written events in order
+(`w:hex`), what is still queued / unsent, under the given schedule with a started `Start` loop
+(`S`) or an unstarted dumper (`U`) as first schedule character. Empty data is not an event
+(`DumpTo` ignores it). -/
+def laneChan : List String → String
+  | [cap, ws, ds, sched] =>
+    match cap.toNat?, decodeNatList ws, decodeList ds with
+    | some c, some wl, some dl =>
+      if wl.length != dl.length then "bad-op" else
+      let evs : List Event := (wl.zip dl).flatMap fun (w, d) => dumpTo d w
+      let started := sched.startsWith "S"
+      let steps : List Step := (sched.toList.drop 1).filterMap fun ch =>
+        if ch == 's' then some .send else if ch == 'r' then some .recv else none
+      let fin := (Chan.mk evs [] [] started).run c steps
+      let render (l : List Event) : String :=
+        if l.isEmpty then "-" else ",".intercalate (l.map fun e => toString e.writer ++ ":" ++ encodeHex e.data)
+      "written=" ++ render fin.written ++ " queued=" ++ toString fin.queue.length ++ " unsent=" ++ toString fin.todo.length
+    | _, _, _ => "bad-op"
+  | _ => "bad-op"
+
 def lanes : List (String × (List String → String)) := [
   ("c13rl", laneRl),
   ("c13exp", laneExp),
-  ("c13route", laneRoute)
+  ("c13route", laneRoute),
+  ("c13dumpers", laneDumpers),
+  ("c13wrapw", laneWrapW),
+  ("c13wrapr", laneWrapR),
+  ("c13chan", laneChan)
 ]
 
 end Req.Driver.L.C13
